@@ -119,7 +119,9 @@ func (fr *Frame) instr(in ssa.Instruction, st *State, reach string) (stop bool, 
 		} else {
 			g.assume(sImp(reach, sAnd(app("<=", "0", ln.T), app("<=", ln.T, cp.T))))
 		}
-		fr.vals[x] = Val{T: app("mkslice", ref, "0", ln.T, cp.T), Go: x.Type(), Sort: SSlice}
+		ms := mkSlice(ref, "0", ln.T, cp.T)
+		ms.Go = x.Type()
+		fr.vals[x] = ms
 	case *ssa.MakeMap:
 		ref := fr.newRef(st)
 		mt := x.Type().Underlying().(*types.Map)
@@ -708,9 +710,9 @@ func (fr *Frame) sliceOp(x *ssa.Slice, st *State, reach string) Val {
 		if x.High != nil {
 			hi = fr.val(x.High).T
 		} else {
-			hi = app("sl.len", base.T)
+			hi = slPart(base, 2)
 		}
-		capT := app("sl.cap", base.T)
+		capT := slPart(base, 3)
 		if x.Max != nil {
 			mx = fr.val(x.Max).T
 			check(sAnd(app("<=", "0", lo), app("<=", lo, hi), app("<=", hi, mx), app("<=", mx, capT)), "bounds")
@@ -718,8 +720,10 @@ func (fr *Frame) sliceOp(x *ssa.Slice, st *State, reach string) Val {
 			mx = capT
 			check(sAnd(app("<=", "0", lo), app("<=", lo, hi), app("<=", hi, capT)), "bounds")
 		}
-		t := app("mkslice", app("sl.base", base.T), app("+", app("sl.off", base.T), lo), app("-", hi, lo), app("-", mx, lo))
-		return Val{T: g.define("slice", SSlice, t), Go: x.Type(), Sort: SSlice}
+		r := mkSlice(slPart(base, 0), simpArith("+", slPart(base, 1), lo), simpArith("-", hi, lo), simpArith("-", mx, lo))
+		r.T = g.define("slice", SSlice, r.T)
+		r.Go = x.Type()
+		return r
 	case *types.Basic: // string
 		if x.High != nil {
 			hi = fr.val(x.High).T
@@ -750,7 +754,9 @@ func (fr *Frame) sliceOp(x *ssa.Slice, st *State, reach string) Val {
 			return Val{T: app("mkslice", ref, lo, app("-", hi, lo), app("-", n, lo)), Go: x.Type(), Sort: SSlice}
 		}
 		fr.nilCheck(base, reach, x.Pos(), "array")
-		return Val{T: app("mkslice", base.T, lo, app("-", hi, lo), app("-", n, lo)), Go: x.Type(), Sort: SSlice}
+		r := mkSlice(base.T, lo, simpArith("-", hi, lo), simpArith("-", n, lo))
+		r.Go = x.Type()
+		return r
 	}
 	efail("slice of %s", typeStr(x.X.Type()))
 	return Val{}
